@@ -158,7 +158,7 @@ SerdeRel(op, a, r) ==
 \* Integer projections of floating-point results (computed by the recorder in f64 from the native values).
 \* The model knows the exact rational inputs, so it knows which side of each threshold they are on.
 IsIntTup(x, n) == x.t = "Tup" /\ Len(x.c) = n
-ProjOps == {"slerp_proj", "nlerp_proj", "slerp_axis_proj", "look_proj", "arc_proj", "small_rot_proj", "norm_proj", "trig_big_proj", "tiny_inv_proj", "slab_proj", "scale_proj", "cross_near_proj", "mm_col_proj", "look_mag_proj", "deep_proj", "angle_near_proj", "lerp_end_proj", "dec_concat_proj", "fov_proj", "hom_proj", "unit_roundtrip", "normalize_native", "turn_div_exact", "full_turn_value", "euler_proj"}
+ProjOps == {"slerp_proj", "nlerp_proj", "slerp_axis_proj", "look_proj", "arc_proj", "small_rot_proj", "norm_proj", "trig_big_proj", "tiny_inv_proj", "slab_proj", "scale_proj", "cross_near_proj", "mm_col_proj", "look_mag_proj", "deep_proj", "angle_near_proj", "lerp_end_proj", "dec_concat_proj", "fov_proj", "hom_proj", "near_sing_proj", "tilt_rot_proj", "look2_mag_proj", "planar_far_proj", "lerp_far_proj", "pred_near_proj", "unit_roundtrip", "normalize_native", "turn_div_exact", "full_turn_value", "euler_proj"}
 \* degree of homogeneity of the operations when every vector / point / matrix / quaternion argument is multiplied by k
 \* (scalar arguments are not scaled): linear operations 1, products and quadratic forms 2, determinants n, inverses -1,
 \* directions and angles 0
@@ -169,6 +169,8 @@ HomDegrees == {<<"add", 1>>, <<"sub", 1>>, <<"neg", 1>>, <<"mul_s", 1>>, <<"div_
                <<"conjugate", 1>>, <<"iter_sum", 1>>, <<"project_on", 1>>, <<"angle", 0>>, <<"is_zero", 0>>, <<"row", 1>>, <<"col", 1>>,
                <<"truncate", 1>>, <<"from_diagonal", 1>>, <<"swap_rows", 1>>, <<"swap_cols", 1>>, <<"to_homogeneous", 1>>,
                <<"from_homogeneous", 0>>, <<"nlerp", 0>>}
+\* ... and when the scalar arguments are multiplied by k instead
+HomScalarDegrees == {<<"mul_s", 1>>, <<"div_s", -1>>, <<"s_mul", 1>>, <<"normalize_to", 1>>, <<"mul_ew", 1>>, <<"div_ew", -1>>}
 ProjRel(op, k, a, r) ==
   LET wide == k = "f32" IN
   CASE op \in {"slerp_proj", "nlerp_proj"} ->
@@ -262,6 +264,20 @@ ProjRel(op, k, a, r) ==
     \* C10 at the ends of the field-of-view range (1e-6 .. pi - 1e-6): accepted, the top and right edges of the near rectangle go to +1
     [] op = "fov_proj" -> /\ IsIntTup(r, 3) /\ RGt(Sc(a, 3), Zero) /\ RGt(Sc(a, 4), Sc(a, 3))
                           /\ r.c[1].c[1] = TRUE /\ r.c[2].c[1] <= 64 /\ r.c[3].c[1] <= 64
+    \* C02 next to singular: determinant g det(M) by multilinearity, an inverse exists and undoes the matrix
+    [] op = "near_sing_proj" -> /\ IsIntTup(r, 3) /\ Det(a[1].c) # Zero /\ r.c[1].c[1] <= 64 /\ r.c[2].c[1] = TRUE /\ r.c[3].c[1] <= 64
+    \* C06 with the axis a hair off a coordinate axis (n, m exact orthonormal): as small_rot_proj
+    [] op = "tilt_rot_proj" -> /\ IsIntTup(r, 2) /\ Dot(a[3].c, a[3].c) = One /\ Dot(a[4].c, a[4].c) = One /\ Dot(a[3].c, a[4].c) = Zero
+                               /\ Dot(a[5].c, a[5].c) = One /\ r.c[1].c[1] <= 256 /\ r.c[2].c[1] <= 64
+    \* C09 in 2-D over magnitudes: orthonormal, first column along dir, second column on the side of up (the model knows the side)
+    [] op = "look2_mag_proj" -> /\ IsIntTup(r, 3) /\ PerpDot(a[2].c, a[3].c) # Zero
+                                /\ r.c[1].c[1] <= 64 /\ r.c[2].c[1] <= 64 /\ r.c[3].c[1] = 1
+    \* C10, planar with a distant focal point: w vanishes there, the window's top edge goes to +1
+    [] op = "planar_far_proj" -> /\ IsIntTup(r, 3) /\ RGt(Sc(a, 3), Zero) /\ RGt(Sc(a, 4), Sc(a, 3)) /\ r.c[1].c[1] = TRUE /\ r.c[2].c[1] <= 64 /\ r.c[3].c[1] <= 64
+    \* C14, lerp far outside [0, 1] is still a + (b - a) t
+    [] op = "lerp_far_proj" -> IsIntTup(r, 2) /\ r.c[1].c[1] <= 16 /\ r.c[2].c[1] = TRUE
+    \* C18, predicates on nearly symmetric / diagonal matrices equal the conjunction of the scalar comparisons
+    [] op = "pred_near_proj" -> IsIntTup(r, 1) /\ Sc(a, 1) \in {"is_symmetric", "is_diagonal"} /\ r.c[1].c[1] = TRUE
     \* C10, far = near * 1e3 .. 1e12: accepted, near plane to -1 and far plane to +1 to a few eps
     [] op = "deep_proj" -> /\ IsIntTup(r, 3) /\ RGt(Sc(a, 2), Zero) /\ r.c[1].c[1] = TRUE /\ r.c[2].c[1] <= 64 /\ r.c[3].c[1] <= 64
     \* C11, angle of nearly (anti)parallel vectors in 2-D and 3-D: within ten millionths of the small angle, both argument orders
@@ -274,13 +290,17 @@ ProjRel(op, k, a, r) ==
     \* Homogeneity of an arbitrary operation of the machine: a = <<T op, T form, I table index, I degree, arguments..>>.
     \* The model states the degree: the table below is the specification's claim about each operation.
     [] op = "hom_proj" ->
-         /\ IsIntTup(r, 2) /\ <<Sc(a, 1), Sc(a, 4)>> \in HomDegrees
+         /\ IsIntTup(r, 2)
+         /\ IF Sc(a, 2) \in {"vv@s", "rv@s", "as@s", "m@s"}
+            THEN <<Sc(a, 1), Sc(a, 4)>> \in HomScalarDegrees          \* the scalar arguments are scaled instead
+            ELSE <<Sc(a, 1), Sc(a, 4)>> \in HomDegrees
          /\ r.c[1].c[1] <= 64 /\ r.c[2].c[1] = TRUE
     \* cross(u, u + g w) = g cross(u, w): nearly parallel operands lose nothing beyond eps |u| |v|              (C03)
     [] op = "cross_near_proj" -> IsIntTup(r, 2) /\ r.c[1].c[1] <= 64 /\ r.c[2].c[1] = TRUE
     [] op = "unit_roundtrip" -> r.t = "I" /\ r.c[1] <= 4       \* relative error at most 4 machine epsilons   (C13)
-    [] op = "normalize_native" -> /\ IsIntTup(r, 4) /\ r.c[1].c[1] = TRUE /\ r.c[2].c[1] = TRUE
+    [] op = "normalize_native" -> /\ IsIntTup(r, 6) /\ r.c[1].c[1] = TRUE /\ r.c[2].c[1] = TRUE
                                   /\ r.c[3].c[1] <= (IF wide THEN 20000 ELSE 10) /\ r.c[4].c[1] <= (IF wide THEN 20000 ELSE 10)
+                                  /\ r.c[5].c[1] <= 4 /\ r.c[6].c[1] <= 4      \* the remainder is exact: a - k * full_turn() is the result
     [] op = "turn_div_exact" -> r = Bv(TRUE)
     [] op = "full_turn_value" -> r.t = "I" /\ r.c[1] <= 1
     [] op = "euler_proj" ->                                     \* (C07)
